@@ -225,6 +225,42 @@ type opSpec struct {
 	Cohort  string `json:"cohort,omitempty"`
 	NotBlk  bool   `json:"revert_not_blocked,omitempty"`
 	CfgVal  string `json:"config_value,omitempty"`
+	Enum    bool   `json:"enumerate_faults,omitempty"`
+}
+
+// directedHistories run before the random ones in every shard: shapes that
+// random generation reaches only rarely in the quick tier.
+var directedHistories = [][]opSpec{
+	{ // refresh to a kept revision while the lowered retain limit discards older revisions mid-change
+		{Kind: "install", Snap: "some-snap", Rev: 1, Channel: "some-channel", Cohort: "cohort-0"},
+		{Kind: "config", Snap: "some-snap", CfgVal: "v1"},
+		{Kind: "retain", Snap: "some-snap", Rev: 5},
+		{Kind: "refresh-new", Snap: "some-snap", Rev: 2},
+		{Kind: "refresh-new", Snap: "some-snap", Rev: 3},
+		{Kind: "refresh-new", Snap: "some-snap", Rev: 4},
+		{Kind: "refresh-new", Snap: "some-snap", Rev: 5},
+		{Kind: "retain", Snap: "some-snap", Rev: 2},
+		{Kind: "refresh-kept", Snap: "some-snap", Rev: 3, Enum: true},
+		{Kind: "revert-to", Snap: "some-snap", Rev: 5, Enum: true},
+	},
+	{ // refresh changing cohort, channel and flags; then revert
+		{Kind: "install", Snap: "some-snap", Rev: 1, Channel: "some-channel", Cohort: "cohort-0"},
+		{Kind: "config", Snap: "some-snap", CfgVal: "v1"},
+		{Kind: "refresh-new", Snap: "some-snap", Rev: 2, Channel: "latest/edge", Cohort: "cohort-1", DevMode: true, IgnVal: true, Enum: true},
+		{Kind: "config", Snap: "some-snap", CfgVal: "v2"},
+		{Kind: "revert", Snap: "some-snap", Enum: true},
+		{Kind: "refresh-new", Snap: "some-snap", Rev: 3, Cohort: "cohort-2", Enum: true},
+	},
+	{ // configuration must go away with the snap, not before
+		{Kind: "install", Snap: "some-other-snap", Rev: 2, Enum: true},
+		{Kind: "config", Snap: "some-other-snap", CfgVal: "v1"},
+		{Kind: "refresh-new", Snap: "some-other-snap", Rev: 3},
+		{Kind: "disable", Snap: "some-other-snap"},
+		{Kind: "enable", Snap: "some-other-snap"},
+		{Kind: "remove", Snap: "some-other-snap", Rev: 2},
+		{Kind: "remove", Snap: "some-other-snap"},
+		{Kind: "install", Snap: "some-other-snap", Rev: 4, Enum: true},
+	},
 }
 
 var snapIDs = map[string]string{"some-snap": "some-snap-id", "some-other-snap": "some-other-snap-id"}
@@ -469,7 +505,7 @@ func (s *verifC1011Suite) runHistories(c *C, prop string) {
 	chk.Assume("nothing is spliced after check-rerefresh (its handler refuses dependents by design)")
 	chk.Floor("faulted_changes", 50)
 
-	nHist := kit.Scale(6, 30)
+	nHist := kit.Scale(len(directedHistories)+4, len(directedHistories)+30)
 	only := kit.OnlyCase()
 	for hi := 0; hi < nHist; hi++ {
 		if only >= 0 && hi != only {
@@ -491,6 +527,11 @@ func (s *verifC1011Suite) runHistory(c *C, chk *kit.Check, prop string, hi int, 
 	w := newWorld()
 	m := &model{installed: map[string]bool{}, seq: map[string][]int{}, cur: map[string]int{}, active: map[string]bool{}, maxRev: map[string]int{}}
 	nops := 5 + rnd.Intn(6)
+	var fixed []opSpec
+	if hi < len(directedHistories) {
+		fixed = directedHistories[hi]
+		nops = len(fixed)
+	}
 	var history []opSpec
 	for _, n := range []string{"some-snap", "some-other-snap"} {
 		s.fakeBackend.addSnapApp(n, "app")
@@ -504,6 +545,9 @@ func (s *verifC1011Suite) runHistory(c *C, chk *kit.Check, prop string, hi int, 
 	for oi := 0; oi < nops; oi++ {
 		s.refreshModel(m)
 		op := genOp(rnd, m)
+		if fixed != nil {
+			op = fixed[oi]
+		}
 		history = append(history, op)
 		if op.Kind == "config" {
 			tr := config.NewTransaction(st)
@@ -518,7 +562,7 @@ func (s *verifC1011Suite) runHistory(c *C, chk *kit.Check, prop string, hi int, 
 			continue
 		}
 		faultable := op.Kind == "install" || op.Kind == "refresh-new" || op.Kind == "refresh-kept" || op.Kind == "revert" || op.Kind == "revert-to"
-		enumerate := faultable && (!kit.Quick() || oi >= nops-2)
+		enumerate := faultable && (!kit.Quick() || oi >= nops-2 || (fixed != nil && op.Enum))
 		witness := func(extra map[string]interface{}) map[string]interface{} {
 			mm := map[string]interface{}{"case_index": hi, "history": history, "op_index": oi, "op": op}
 			for k, v := range extra {
